@@ -280,6 +280,17 @@ pub fn malform(r: &mut Rng, e: &mut EchoReq) -> Option<String> {
             }
             Some(format!("undecodable path segment {bad}"))
         }
+        "echo_pal" => {
+            // one component of the typed wildcard is no colour
+            let bad = *r.pick(&["mauve", "red", "RED", "1", "Red%20", "Re", "null", "Red,Green"]);
+            let at = r.usize_in(1, e.path_segs.len());
+            if at < e.path_segs.len() && r.chance(1, 2) {
+                e.path_segs[at] = bad.to_string();
+            } else {
+                e.path_segs.insert(at, bad.to_string());
+            }
+            Some(format!("wildcard component {bad} is no colour"))
+        }
         "echo_narrow" => {
             let (idx, bad): (usize, &str) = *r.pick(&[
                 (1, "256"),
@@ -404,7 +415,8 @@ pub fn gen_random(seed: u64, idx: u64) -> Plan {
         for j in 0..nreq {
             let steps = r.range(0, 1) as u32;
             let step_ms = *r.pick(&[0u64, 1, 10]);
-            let mut e = match r.below(11) {
+            let mut e = match r.below(12) {
+                11 => gen_pal(&mut r, nonce, steps, step_ms),
                 9 => gen_wild(&mut r, nonce, steps, step_ms),
                 10 => gen_raw(&mut r, nonce, steps, step_ms, false),
                 8 => gen_page(&mut r, nonce, steps, step_ms),
